@@ -118,6 +118,7 @@ class SearchModel:
     worklist_sources: list[str] = field(default_factory=list)  # sets / node expressions the worklist is initialised from
     worklist_inits: list[ast.stmt] = field(default_factory=list)
     other_expansions: list[ast.Call] = field(default_factory=list)  # neighbour lookups outside the node loop
+    neighbour_calls: list[ast.Call] = field(default_factory=list)  # every spelling of the expansion inside the node loop (neighbour_call is the first)
     subtree_sites: list[SubtreeSite] = field(default_factory=list)
     parent_id_sets: dict[str, list[str]] = field(default_factory=dict)  # var -> filter params whose parent-module identifiers it holds
     set_ops: list[SetOp] = field(default_factory=list)  # add / remove / discard of single nodes on the node sets
@@ -296,12 +297,47 @@ def _split_conditions(stmts: list[ast.stmt]) -> list[ast.stmt]:
     return out
 
 
+def _is_none_test(t: ast.expr) -> str | None:
+    """x for `x is None`."""
+    if isinstance(t, ast.Compare) and len(t.ops) == 1 and isinstance(t.ops[0], ast.Is) and isinstance(t.left, ast.Name) and isinstance(t.comparators[0], ast.Constant) and t.comparators[0].value is None:
+        return t.left.id
+    return None
+
+
+def _thread_none_exits(stmts: list[ast.stmt]) -> list[ast.stmt]:
+    """`if c: x = None else: ..; x = e` directly followed by `if x is None: <exit>`: the branch that sets None takes the exit itself
+    (the shape a substituted `x = helper(..)` leaves when the helper returns None for "nothing to do")."""
+    for st in stmts:
+        for fld in ("body", "orelse", "finalbody"):
+            blk = getattr(st, fld, None)
+            if isinstance(blk, list) and blk and isinstance(blk[0], ast.stmt):
+                setattr(st, fld, _thread_none_exits(blk))
+        if isinstance(st, ast.Try):
+            for h in st.handlers:
+                h.body = _thread_none_exits(h.body)
+    out = list(stmts)
+    i = 0
+    while i + 1 < len(out):
+        a, b = out[i], out[i + 1]
+        x = _is_none_test(b.test) if isinstance(b, ast.If) and not b.orelse else None
+        pure_exit = x is not None and all(isinstance(e, (ast.Continue, ast.Break)) or (isinstance(e, ast.Return) and (e.value is None or isinstance(e.value, ast.Constant))) for e in b.body)
+        if isinstance(a, ast.If) and a.orelse and pure_exit:
+            for fld in ("body", "orelse"):
+                blk = getattr(a, fld)
+                last = blk[-1] if blk else None
+                if isinstance(last, ast.Assign) and len(last.targets) == 1 and isinstance(last.targets[0], ast.Name) and last.targets[0].id == x and isinstance(last.value, ast.Constant) and last.value.value is None:
+                    setattr(a, fld, blk[:-1] + _clone(b.body))
+        i += 1
+    return out
+
+
 def search_view(repo: Repo, fi: FuncInfo) -> FuncInfo:
     cache = repo.__dict__.setdefault("_search_views", {})
     if fi.fq in cache:
         return cache[fi.fq]
     v0 = Inliner(repo, types_of(repo), _allow).view(fi)
     node = v0.node
+    node.body = _thread_none_exits(node.body)
     _eliminate_aliases(node, set(fi.param_names))
     node.body = _split_conditions(node.body)
     ast.fix_missing_locations(node)
@@ -745,17 +781,31 @@ def _binding_loop(name: str, at: ast.AST):
     return None
 
 
+def _is_base_of(call: ast.AST, value: ast.AST) -> bool:
+    """`value` is `call`, possibly converted (`set(..)`, `.copy()`) and with single nodes taken out (`call - {x}`, `call.difference(..)`,
+    either branch of a conditional expression): still the set computed by the call, up to the documented adjustments."""
+    v = strip(value)
+    if v is call:
+        return True
+    if isinstance(v, ast.BinOp) and isinstance(v.op, ast.Sub):
+        return _is_base_of(call, v.left)
+    if isinstance(v, ast.Call) and isinstance(v.func, ast.Attribute) and v.func.attr == "difference":
+        return _is_base_of(call, v.func.value)
+    if isinstance(v, ast.IfExp):
+        return _is_base_of(call, v.body) or _is_base_of(call, v.orelse)
+    return False
+
+
 def _receiving_var(call: ast.AST) -> tuple[str | None, bool]:
     """(variable that receives the value of `call`, it is assigned exactly that value)."""
     st = stmt_of(call)
     if isinstance(st, ast.Assign) and len(st.targets) == 1 and isinstance(st.targets[0], ast.Name):
-        v = strip(st.value)
-        if v is call:
+        if _is_base_of(call, st.value):
             return st.targets[0].id, True
         # x = x | f(..) / x = x.union(f(..)) accumulate
         return st.targets[0].id, False
     if isinstance(st, ast.AnnAssign) and isinstance(st.target, ast.Name) and st.value is not None:
-        return st.target.id, strip(st.value) is call
+        return st.target.id, _is_base_of(call, st.value)
     if isinstance(st, ast.AugAssign) and isinstance(st.target, ast.Name):
         return st.target.id, False
     if isinstance(st, ast.Expr) and isinstance(st.value, ast.Call) and isinstance(st.value.func, ast.Attribute) and isinstance(st.value.func.value, ast.Name):
@@ -843,12 +893,14 @@ def build(repo: Repo, fi: FuncInfo) -> SearchModel | None:
         return None
     bound = [(e, _binder(e)) for e in exps]
     in_loop = [(e, b) for e, b in bound if b is not None]
-    if len(in_loop) != 1:
+    same = bool(in_loop) and all(bb[1] is in_loop[0][1][1] and e.func.attr == in_loop[0][0].func.attr and norm(e.args[0]) == norm(in_loop[0][0].args[0]) and dotted(e.func.value) == dotted(in_loop[0][0].func.value) for e, bb in in_loop)
+    if not same:
         raise AnalysisError(
-            f"{fi.fq}: {len(in_loop)} neighbour expansions of a node taken from a worklist / node loop (unknown search idiom; "
+            f"{fi.fq}: {len(in_loop)} different neighbour expansions of nodes taken from a worklist / node loop (unknown search idiom; "
             f"expansions found: {[norm(e) for e in exps]})"
         )
     ncall, b = in_loop[0]
+    ncalls = [e for e, _ in in_loop]  # the same expansion may be written several times (one pass per edge kind)
     single = _single_assignments(fn)
     direction = "succ" if ncall.func.attr == SUCC else "pred"
     graph = dotted(ncall.func.value)
@@ -875,7 +927,7 @@ def build(repo: Repo, fi: FuncInfo) -> SearchModel | None:
     def resolve(e: ast.AST, depth: int = 0):
         """filters [(cond, var)] applied on the way from the expansion call to the iterated expression `e`; None if `e` is something else."""
         e = strip(e)
-        if e is ncall:
+        if any(e is c for c in ncalls):
             return []
         if depth > 4:
             return None
@@ -926,6 +978,7 @@ def build(repo: Repo, fi: FuncInfo) -> SearchModel | None:
     model.neighbour_iters = iters
     model.result_vars = rets
     model.other_expansions = [e for e, bb in bound if bb is None]
+    model.neighbour_calls = ncalls
     model.subst = make_subst(repo, v)
     model.worklist_sources, model.worklist_inits = _worklist_sources(fn, wl_expr, outer, single)
 
@@ -1349,7 +1402,7 @@ def first_iteration_lookup(m: SearchModel, p: str) -> tuple[bool, str]:
     # conditions inside the loop under which the neighbour lookup is reached (as evaluated in the first iteration)
     inner = [(e, pol) for e, pol in control_conditions(v.node, m.neighbour_call) if any(a is m.loop for a in ancestors(e)) or e is getattr(m.loop, "test", None)]
     g = conds_formula(inner, m.subst)
-    assume = []
+    assume = [f_not(atom(f"{m.popped} is None"))]  # graph nodes are names, never None
     if isinstance(m.loop, ast.While):
         assume.append(atom(f"bool({m.worklist})"))  # the literal initial worklist is not empty
     for a in sorted(atoms_of(g)):
